@@ -14,6 +14,7 @@ import (
 
 	clstrPB "github.com/rqlite/rqlite/v10/cluster/proto"
 	"github.com/rqlite/rqlite/v10/command/proto"
+	"github.com/rqlite/rqlite/v10/internal/vhook"
 	"github.com/rqlite/rqlite/v10/store"
 )
 
@@ -128,6 +129,7 @@ func (p *Proxy) Execute(ctx context.Context, er *proto.ExecuteRequest, creds *cl
 	timeout time.Duration, retries int, noForward bool) ([]*proto.ExecuteQueryResponse, uint64, string, error) {
 
 	results, raftIndex, err := p.store.Execute(ctx, er)
+	vhook.Trace(p.GetAPIAddr(), "px.local", "kind", "execute", "err", err)
 	if errors.Is(err, store.ErrNotLeader) {
 		if noForward {
 			return nil, 0, "", ErrNotLeader
@@ -136,7 +138,9 @@ func (p *Proxy) Execute(ctx context.Context, er *proto.ExecuteRequest, creds *cl
 		if addrErr != nil {
 			return nil, 0, "", addrErr
 		}
+		vhook.Trace(p.GetAPIAddr(), "px.fwd", "kind", "execute", "addr", addr, "user", creds.GetUsername(), "pw", creds.GetPassword())
 		results, raftIndex, err = p.cluster.Execute(ctx, er, addr, creds, timeout, retries)
+		vhook.Trace(p.GetAPIAddr(), "px.fwdret", "kind", "execute", "idx", raftIndex, "err", err)
 		if err != nil {
 			stats.Add(numRemoteExecutionsFailed, 1)
 			return nil, 0, "", wrapIfUnauthorized(err)
@@ -154,6 +158,7 @@ func (p *Proxy) Query(ctx context.Context, qr *proto.QueryRequest, creds *clstrP
 	timeout time.Duration, retries int, noForward bool) ([]*proto.QueryRows, uint64, string, error) {
 
 	results, _, raftIndex, err := p.store.Query(ctx, qr)
+	vhook.Trace(p.GetAPIAddr(), "px.local", "kind", "query", "err", err)
 	if errors.Is(err, store.ErrNotLeader) {
 		if noForward {
 			return nil, 0, "", ErrNotLeader
@@ -162,7 +167,9 @@ func (p *Proxy) Query(ctx context.Context, qr *proto.QueryRequest, creds *clstrP
 		if addrErr != nil {
 			return nil, 0, "", addrErr
 		}
+		vhook.Trace(p.GetAPIAddr(), "px.fwd", "kind", "query", "addr", addr, "user", creds.GetUsername(), "pw", creds.GetPassword())
 		results, raftIndex, err = p.cluster.Query(ctx, qr, addr, creds, timeout, retries)
+		vhook.Trace(p.GetAPIAddr(), "px.fwdret", "kind", "query", "idx", raftIndex, "err", err)
 		if err != nil {
 			stats.Add(numRemoteQueriesFailed, 1)
 			return nil, 0, "", wrapIfUnauthorized(err)
@@ -180,6 +187,7 @@ func (p *Proxy) Request(ctx context.Context, eqr *proto.ExecuteQueryRequest, cre
 	timeout time.Duration, retries int, noForward bool) ([]*proto.ExecuteQueryResponse, uint64, uint64, string, error) {
 
 	results, seq, raftIndex, err := p.store.Request(ctx, eqr)
+	vhook.Trace(p.GetAPIAddr(), "px.local", "kind", "request", "err", err)
 	if errors.Is(err, store.ErrNotLeader) {
 		if noForward {
 			return nil, 0, 0, "", ErrNotLeader
@@ -188,7 +196,9 @@ func (p *Proxy) Request(ctx context.Context, eqr *proto.ExecuteQueryRequest, cre
 		if addrErr != nil {
 			return nil, 0, 0, "", addrErr
 		}
+		vhook.Trace(p.GetAPIAddr(), "px.fwd", "kind", "request", "addr", addr, "user", creds.GetUsername(), "pw", creds.GetPassword())
 		results, seq, raftIndex, err = p.cluster.Request(ctx, eqr, addr, creds, timeout, retries)
+		vhook.Trace(p.GetAPIAddr(), "px.fwdret", "kind", "request", "idx", raftIndex, "err", err)
 		if err != nil {
 			stats.Add(numRemoteRequestsFailed, 1)
 			return nil, 0, 0, "", wrapIfUnauthorized(err)
